@@ -3,6 +3,7 @@
 //   evalcert <dag> <box> => <node domains, comma separated>       every node domain encloses its operator applied to its arguments' domains
 #include "common.h"
 #include "expr_io.h"
+#include "mp_dag.h"
 #include <sys/wait.h>
 #include <unistd.h>
 using namespace ibex; using namespace vh; using namespace std;
@@ -96,6 +97,56 @@ static string domains_token(Function& f, const ExprNode& root, const Array<const
   string r; for (size_t i = 0; i < out.size(); i++) { if (i) r += ","; r += out[i]; } return r;
 }
 
+
+// ---- expressions with elementary functions (workload c02t): judged at points by the MPFR interval oracle of mp_dag.h
+static const ExprNode& gen_elem(Rng& r, ExprGen& g, int depth) {
+  if (depth <= 0) return g.gen(1, 1, r.range(0, 1));
+  const ExprNode& a = gen_elem(r, g, depth - 1);
+  switch (r.below(26)) {
+    case 0: return exp(a); case 1: return log(sqr(a) + ExprConstant::new_scalar(r.range(1, 8) / 4.0)); case 2: return log(a);
+    case 3: return cos(a); case 4: return sin(a); case 5: return tan(a);
+    case 6: return acos(a); case 7: return asin(a); case 8: return atan(a);
+    case 9: return cosh(a); case 10: return sinh(a); case 11: return tanh(a);
+    case 12: return acosh(a); case 13: return asinh(a); case 14: return atanh(a);
+    case 15: return acos(sin(a)); case 16: return atanh(tanh(a) * 0.5); case 17: return acosh(cosh(a) + 0.25);
+    case 18: return atan2(a, sqr(gen_elem(r, g, depth - 1)) + ExprConstant::new_scalar(r.range(1, 8) / 8.0));
+    case 19: return sqrt(abs(a)) + pow(a, (int)r.range(-2, 4));
+    case 20: return a + gen_elem(r, g, depth - 1); case 21: return a * gen_elem(r, g, depth - 1); case 22: return a - gen_elem(r, g, depth - 1);
+    case 23: return a / (sqr(gen_elem(r, g, depth - 1)) + 1.0);
+    case 24: return max(a, gen_elem(r, g, depth - 1)) - min(a, exp(-a));
+    default: return chi(a, sin(a), cos(gen_elem(r, g, depth - 1)));
+  }
+}
+static void wl_c02t(Rng& r, long n) {
+  for (long it = 0; it < n; it++) {
+    try {
+      int nv = r.range(1, 3);
+      GenCfg cfg; cfg.allow_vec = false; cfg.allow_apply = false; cfg.allow_div = r.coin(40); cfg.max_depth = 2; cfg.thick_consts = false;
+      ExprGen g(r, cfg);
+      Array<const ExprSymbol> args(nv);
+      for (int i = 0; i < nv; i++) { const ExprSymbol& s = ExprSymbol::new_(("x" + to_string(i)).c_str(), Dim::scalar()); args.set_ref(i, s); g.syms.push_back(&s); }
+      const ExprNode& e = gen_elem(r, g, r.range(1, 3));
+      string dag = dump_expr(e, args);
+      Function f(args, e, "f");
+      for (int k = 0; k < 3; k++) {
+        IntervalVector box(nv);
+        for (int i = 0; i < nv; i++) { double c = r.coin(70) ? r.range(-16, 16) / 8.0 : r.range(-400, 400) / 8.0; double w = r.coin(30) ? 0 : (r.coin() ? std::ldexp(1.0, -(int)r.range(1, 30)) : r.range(1, 16) / 8.0); box[i] = Interval(c - w, c + (r.coin(20) ? 0 : w)); }
+        if (r.coin(50)) { IntervalVector other(nv); for (int i = 0; i < nv; i++) other[i] = Interval(r.range(-64, 0) / 4.0, r.range(0, 64) / 4.0); try { f.eval(other); } catch (...) {} }   // history
+        Interval res = f.eval(box);
+        check_round_up("eval-elementary");
+        vector<Vector> pts; for (int j = 0; j < 4; j++) pts.push_back(pick_point(r, box));
+        { Vector lo(nv), hi(nv); for (int i = 0; i < nv; i++) { lo[i] = box[i].lb(); hi[i] = box[i].ub(); } pts.push_back(lo); pts.push_back(hi); pts.push_back(box.mid()); }
+        for (auto& p : pts) {
+          bool fin = true; for (int i = 0; i < nv; i++) if (!(std::fabs(p[i]) <= DBL_MAX) || !box[i].contains(p[i])) fin = false; if (!fin) continue;
+          double lo, hi; bool okv = mp_eval(e, args, p, lo, hi);
+          EMIT("evalt %s %s %s %s => %s\n", dag.c_str(), tok(box).c_str(), ptok(p).c_str(), okv ? (hex(lo) + ":" + hex(hi)).c_str() : "U", res.is_empty() ? "E" : tok(res).c_str());
+        }
+      }
+    } catch (VerifAbort& a) { EMIT("evalerror c02t abort => 0\n"); }
+      catch (std::exception& e) { EMIT("evalerror c02t %s => 0\n", typeid(e).name()); }
+  }
+}
+
 int main(int argc, char** argv) {
   string wl = argc > 1 ? argv[1] : "c02";
   uint64_t seed = argc > 2 ? strtoull(argv[2], 0, 10) : 1;
@@ -174,6 +225,7 @@ int main(int argc, char** argv) {
       }
       } catch (std::exception& e) { EMIT("evalerror %s %s => 0\n", b.dag.c_str(), e.what()); }
     }
+  } else if (wl == "c02t") { wl_c02t(r, n);
   } else { fprintf(stderr, "unknown workload\n"); return 2; }
   fprintf(stderr, "emitted %ld\n", emitted);
   return 0;
